@@ -306,3 +306,54 @@ theorem C14_meets_spec_but_depth (L : List Frame) (hne : ∀ f ∈ L, isElided f
   simp only [hnlt, if_false, hfind, hget, hdrop, htake, hlenB, hdd, beq_self_eq_true, Bool.true_and,
     Bool.and_eq_true, decide_eq_true_eq]
   refine ⟨⟨⟨by omega, trivial⟩, by omega⟩, hpos⟩
+
+/-! ### The per-CPU label frame -/
+
+/-- **The per-CPU label frame (and any single extra frame).** For hint `n ≥ 500` and an inner iterator that yields
+`n` or `n + 1` frames (`n + 1`: the thread label frame of a per-CPU copy in front of `n` recorded frames), the
+output meets the full judged statement. -/
+theorem C14_meets_spec_one_more (L : List Frame) (hne : ∀ f ∈ L, isElided f = false) (n : Nat) (h : 500 ≤ n)
+    (hL : n ≤ L.length) (hU : L.length ≤ n + 1) : elisionOk L (depthLimit 200 L n) = true := by
+  obtain ⟨c, hs, hc, hpos, _, h1, h2, h3⟩ := C14_count n h
+  have hd := (C14_elided_of_enough L n h (by rw [← hc]; omega)).1
+  rw [← hc] at hd
+  have h200 : (L.take 200).length = 200 := by simp; omega
+  have hA : (L.take 200).findIdx? isElided = none :=
+    C14_findIdx_none_of_all_false _ (fun f hf => hne f (List.mem_of_mem_take hf))
+  have hfind : (L.take 200 ++ [Frame.elided c] ++ L.drop (200 + c)).findIdx? isElided = some 200 := by
+    rw [List.append_assoc, List.findIdx?_append, hA]
+    simp [List.findIdx?_cons, isElided, h200]
+  have hget : (L.take 200 ++ [Frame.elided c] ++ L.drop (200 + c))[200]? = some (Frame.elided c) := by
+    rw [List.append_assoc, List.getElem?_append_right (by omega)]
+    simp [h200]
+  have hdrop : (L.take 200 ++ [Frame.elided c] ++ L.drop (200 + c)).drop 201 = L.drop (200 + c) := by
+    have e : (201 : Nat) = (L.take 200 ++ [Frame.elided c]).length := by simp [h200]
+    rw [e, List.drop_left]
+  have htake : (L.take 200 ++ [Frame.elided c] ++ L.drop (200 + c)).take 200 = L.take 200 := by
+    rw [List.append_assoc, List.take_append_of_le_length (by omega)]
+    exact List.take_of_length_le (by omega)
+  have hlenB : (L.drop (200 + c)).length = L.length - (200 + c) := List.length_drop
+  have hlen : (L.take 200 ++ [Frame.elided c] ++ L.drop (200 + c)).length = 201 + (L.length - (200 + c)) := by
+    simp only [List.length_append, List.length_cons, List.length_nil, h200, hlenB]
+  have hnlt : ¬ (L.length < 500) := by omega
+  have hdd : L.drop (L.length - (L.length - (200 + c))) = L.drop (200 + c) := by
+    congr 1; omega
+  rw [hd]
+  unfold elisionOk
+  simp only [hnlt, if_false, hfind, hget, hdrop, htake, hlenB, hdd, beq_self_eq_true, Bool.true_and,
+    Bool.and_eq_true, decide_eq_true_eq]
+  rw [hlen]
+  refine ⟨⟨⟨⟨⟨by omega, by omega⟩, trivial⟩, by omega⟩, by omega⟩, hpos⟩
+
+/-- … except at the boundary: a per-CPU copy of a 499-frame stack has 500 frames, the hint says 499, and the
+stack reaches the profile unshortened although it is 500 frames deep (recorded as C14-percpu-label-499; the
+output stays within 501 frames). -/
+theorem C14_percpu_label_499 (L : List Frame) (hne : ∀ f ∈ L, isElided f = false) (h : L.length = 500) :
+    depthLimit 200 L 499 = L ∧ elisionOk L (depthLimit 200 L 499) = false ∧ (depthLimit 200 L 499).length ≤ 501 := by
+  have hu := C14_unchanged L 499 (by omega)
+  rw [hu]
+  refine ⟨rfl, ?_, by omega⟩
+  unfold elisionOk
+  have : ¬ L.length < 500 := by omega
+  simp only [this, if_false]
+  rw [C14_findIdx_none_of_all_false L hne]
